@@ -1239,11 +1239,269 @@ def check_dict_keys_survive(ck, R):
           "argument hash differs - the decoded memento is not the one that was stored", ea.where())
 
 
+# ---- normalisation is the codec round trip -----------------------------------------------------------------
+AH = "reference.ArgumentHasher"
+# the class facts of the standard library the argument codec relies on (subclass -> base)
+_BASE_OF = {"bool": "int", "datetime.datetime": "datetime.date", "datetime": "date"}
+
+
+def _bases(tok):
+    out = [tok]
+    while out[-1] in _BASE_OF:
+        out.append(_BASE_OF[out[-1]])
+    return out
+
+
+class _Adm:
+    """What a condition says about the object a parameter holds: `classes` - the classes it is an instance of (None:
+    not bounded), `excluded` - classes it is not an instance of, `extras` - the other facts known about it
+    (text with the parameter written `_P_`, polarity)."""
+
+    def __init__(self, classes=None, excluded=(), extras=()):
+        self.classes = None if classes is None else frozenset(classes)
+        self.excluded = frozenset(excluded)
+        self.extras = frozenset(extras)
+
+    def both(self, o):
+        if self.classes is not None and o.classes is not None:
+            c = self.classes & o.classes
+            if not c:
+                c = self.classes if len(self.classes) <= len(o.classes) else o.classes
+        else:
+            c = self.classes if self.classes is not None else o.classes
+        return _Adm(c, self.excluded | o.excluded, self.extras | o.extras)
+
+    def either(self, o):
+        c = (self.classes | o.classes) if self.classes is not None and o.classes is not None else None
+        return _Adm(c, self.excluded & o.excluded, self.extras & o.extras)
+
+
+def _class_tokens(fa: FA, t):
+    """The classes named by the second argument of isinstance / the operand of a comparison with type(x)."""
+    t = _static(fa, t, None)
+    if isinstance(t, (ast.Tuple, ast.List, ast.Set)):
+        out = set()
+        for e in t.elts:
+            s = _class_tokens(fa, e)
+            if s is None:
+                return None
+            out |= s
+        return out
+    if isinstance(t, ast.Call) and isinstance(t.func, ast.Name) and t.func.id == "type" and len(t.args) == 1 and A.is_none(t.args[0]):
+        return {"None"}
+    d = A.dotted(t)
+    return {d} if d else None
+
+
+def _admitted(fa: FA, e, pol: bool, param: str) -> _Adm:
+    """The class facts about `param` that hold when the test `e` comes out `pol`."""
+    def is_p(x):
+        return isinstance(x, ast.Name) and x.id == param
+
+    def type_of_p(x):
+        return (isinstance(x, ast.Call) and isinstance(x.func, ast.Name) and x.func.id == "type" and len(x.args) == 1 and is_p(x.args[0])) or \
+            (isinstance(x, ast.Attribute) and x.attr == "__class__" and is_p(x.value))
+
+    if isinstance(e, ast.UnaryOp) and isinstance(e.op, ast.Not):
+        return _admitted(fa, e.operand, not pol, param)
+    if isinstance(e, ast.BoolOp):
+        parts = [_admitted(fa, v, pol, param) for v in e.values]
+        conj = isinstance(e.op, ast.And) == pol
+        acc = parts[0]
+        for p_ in parts[1:]:
+            acc = acc.both(p_) if conj else acc.either(p_)
+        return acc
+    if isinstance(e, ast.Call) and isinstance(e.func, ast.Name) and e.func.id == "isinstance" and len(e.args) == 2 and is_p(e.args[0]):
+        ks = _class_tokens(fa, e.args[1])
+        if ks is not None:
+            return _Adm(ks) if pol else _Adm(None, ks)
+    if isinstance(e, ast.Compare) and len(e.ops) == 1:
+        l, op, r = e.left, e.ops[0], e.comparators[0]
+        if isinstance(op, (ast.IsNot, ast.NotEq, ast.NotIn)):
+            op = {ast.IsNot: ast.Is, ast.NotEq: ast.Eq, ast.NotIn: ast.In}[type(op)]()
+            pol = not pol
+        if isinstance(op, (ast.Is, ast.Eq)) and ((is_p(l) and A.is_none(r)) or (is_p(r) and A.is_none(l))) and isinstance(op, ast.Is):
+            return _Adm({"None"}) if pol else _Adm(None, {"None"})
+        if isinstance(op, (ast.Is, ast.Eq, ast.In)) and (type_of_p(l) or (type_of_p(r) and not isinstance(op, ast.In))):
+            ks = _class_tokens(fa, r if type_of_p(l) else l)
+            if ks is not None:
+                # the exact class: an instance of it; the negation says nothing about instances of subclasses
+                return _Adm(ks) if pol else _Adm()
+    if not any(is_p(x) for x in ast.walk(e)):
+        return _Adm()
+    import copy
+
+    class T(ast.NodeTransformer):
+        def visit_Name(self, n):
+            return ast.copy_location(ast.Name(id="_P_", ctx=n.ctx), n) if n.id == param else n
+
+    txt = A.norm(T().visit(copy.deepcopy(e)))
+    if isinstance(e, ast.Compare) and len(e.ops) == 1 and isinstance(e.ops[0], (ast.IsNot, ast.NotEq, ast.NotIn)):
+        e2 = copy.deepcopy(e)
+        e2.ops = [{ast.IsNot: ast.Is, ast.NotEq: ast.Eq, ast.NotIn: ast.In}[type(e.ops[0])]()]
+        return _Adm(None, (), {(A.norm(T().visit(e2)), not pol)})
+    return _Adm(None, (), {(txt, pol)})
+
+
+def _admitted_by(fa: FA, conds, param: str) -> _Adm:
+    """The class facts that hold on every path class of a DNF of FA.conditions literals."""
+    acc = None
+    for conj in conds:
+        a = _Adm()
+        for (txt, pol) in sorted(conj):
+            try:
+                e = ast.parse(txt, mode="eval").body
+            except SyntaxError:
+                continue
+            a = a.both(_admitted(fa, e, pol, param))
+        acc = a if acc is None else acc.either(a)
+    return acc if acc is not None else _Adm()
+
+
+def _strip_cast(e):
+    while isinstance(e, ast.Call) and isinstance(e.func, ast.Name) and e.func.id == "cast" and len(e.args) == 2 and not e.keywords:
+        e = e.args[1]
+    return e
+
+
+def _applied(e, fnames, inner):
+    """Is `e` the call f(inner-ish) for f one of `fnames`: -> the argument, else None."""
+    e = _strip_cast(e)
+    if isinstance(e, ast.Call) and A.call_attr(e) in fnames and len(e.args) == 1 and not e.keywords and not isinstance(e.args[0], ast.Starred):
+        return _strip_cast(e.args[0])
+    return None
+
+
+def _member_map(e, param, is_mapped):
+    """'list' for [g(x) for x in P], 'dict' for {k: g(v) for (k, v) in P.items()} (one generator, no filter, keys kept) where
+    `is_mapped(expr, member name)` recognises g(member); else None."""
+    if isinstance(e, (ast.ListComp, ast.DictComp)) and len(e.generators) == 1:
+        g = e.generators[0]
+        if g.ifs or g.is_async:
+            return None
+        if isinstance(e, ast.ListComp) and isinstance(g.iter, ast.Name) and g.iter.id == param and isinstance(g.target, ast.Name) and is_mapped(e.elt, g.target.id):
+            return "list"
+        if isinstance(e, ast.DictComp) and isinstance(g.iter, ast.Call) and A.call_attr(g.iter) == "items" and not g.iter.args and \
+                isinstance(A.call_recv(g.iter), ast.Name) and A.call_recv(g.iter).id == param and isinstance(g.target, ast.Tuple) and len(g.target.elts) == 2 and \
+                all(isinstance(x, ast.Name) for x in g.target.elts) and isinstance(e.key, ast.Name) and e.key.id == g.target.elts[0].id and \
+                g.target.elts[0].id != g.target.elts[1].id and is_mapped(e.value, g.target.elts[1].id):
+            return "dict"
+    return None
+
+
+def check_normalize_is_round_trip(ck, R):
+    """"The argument hash recomputed from the decoded arguments equals the original one": a reference keeps - and hashes, and
+    writes - the NORMALISED arguments, so what normalisation returns has to be exactly what reading the written form yields.
+    On every path class `normalize(x)` is therefore decode(encode(x)), or provably equal to it:
+      * x itself, where the path condition confines x to the classes that BOTH the encoder and the decoder hand back
+        unchanged (derived from their own pass-through cases - not a fixed list);
+      * a list / dict rebuilt with every member normalised, where encoder and decoder map their own function over the
+        members of that same class under the same side conditions.
+    A class that the encoder rewrites (dates, timestamps, function references ...) kept as it is would be hashed and stored
+    in its own spelling (a pd.Timestamp with nanoseconds, a zone object of another library), which is not what the decoder
+    produces from the stored document."""
+    ck.rule(R, "ArgumentHasher.normalize returns decode(encode(x)) on every path (x itself only for the classes both coders pass through)", 2)
+    nm, enc, dec = FA(ck, AH + ".normalize"), FA(ck, AH + "._encode"), FA(ck, AH + "._decode")
+    names = {"n": nm.fi.name, "e": enc.fi.name, "d": dec.fi.name}
+
+    def cases_of(fa):
+        prm = _first_param(fa, "obj")
+        rc = return_cases(fa)
+        ck.need(rc is not None, "%s: too many paths to enumerate what it returns" % fa.qual)
+        out = []
+        for (v, at, conds) in rc:
+            val = _strip_cast(fa.expand(v, at)) if v is not None else None
+            out.append((val, at, _admitted_by(fa, conds, prm), prm))
+        return out
+
+    def passes_through(fa):
+        """(classes handed back unchanged, classes carved out of them by an earlier case)"""
+        classes, holes = set(), set()
+        for (val, _at, adm, prm) in cases_of(fa):
+            if isinstance(val, ast.Name) and val.id == prm and adm.classes is not None:
+                classes |= adm.classes
+                holes |= adm.excluded
+        return classes, {h for h in holes if any(b in classes for b in _bases(h)[1:])}
+
+    e_same, e_holes = passes_through(enc)
+    d_same, d_holes = passes_through(dec)
+    same = e_same & d_same
+    holes = e_holes | d_holes
+
+    def kept_ok(adm):
+        if adm.classes is None:
+            return False, "any object"
+        bad = sorted(c for c in adm.classes if not any(b in same for b in _bases(c)))
+        if bad:
+            return False, "instances of " + ", ".join(bad)
+        carved = sorted(h for h in holes if h not in adm.excluded and any(b in adm.classes for b in _bases(h)))
+        if carved:
+            return False, "instances of " + ", ".join(carved)
+        return True, ""
+
+    def rt_call(e, member):
+        """normalize(member) / decode(encode(member))"""
+        a = _applied(e, {names["n"]}, None)
+        if isinstance(a, ast.Name) and a.id == member:
+            return True
+        a = _applied(e, {names["d"]}, None)
+        a = _applied(a, {names["e"]}, None) if a is not None else None
+        return isinstance(a, ast.Name) and a.id == member
+
+    def coder_cases(fa, fname):
+        out = []
+        for (val, _at, adm, prm) in cases_of(fa):
+            kind = _member_map(val, prm, lambda x, m: isinstance(_applied(x, {fname}, None), ast.Name) and _applied(x, {fname}, None).id == m) if val is not None else None
+            if kind is not None:
+                out.append((kind, adm))
+        return out
+
+    e_maps, d_maps = coder_cases(enc, names["e"]), coder_cases(dec, names["d"])
+    n_cases = cases_of(nm)
+    ck.need(n_cases, "normalize: no return found")
+    bad_kept, bad_other = [], []
+    n_rt = 0
+    for (val, at, adm, prm) in n_cases:
+        st = nm.cfg.node(at).ast
+        if val is not None and rt_call(val, prm):
+            n_rt += 1
+            continue
+        if (isinstance(val, ast.Name) and val.id == prm) or (A.is_none(val) if val is not None else False) and adm.classes == frozenset({"None"}):
+            ok, who = kept_ok(adm)
+            if not ok:
+                bad_kept.append((st, who))
+            continue
+        kind = _member_map(val, prm, rt_call) if val is not None else None
+        if kind is not None and adm.classes == frozenset({kind}):
+            def matches(ms):
+                return any(k == kind and a.classes == adm.classes and a.extras == adm.extras and
+                           not any(kind in _bases(h)[1:] and h not in adm.excluded for h in a.excluded) for (k, a) in ms)
+            if matches(e_maps) and matches(d_maps):
+                continue
+        bad_other.append((st, A.short(val, 60) if val is not None else "None"))
+    okk = not bad_kept
+    ck.ob(R, nm.key(None, "kept-as-is-only-pass-through-classes"), okk,
+          "normalize hands x back unchanged only for classes both coders pass through (%s)" % ", ".join(sorted(same)) if okk else
+          "normalize returns its argument as it is for %s, but the encoder writes those in another form and the decoder builds a new object from it "
+          "(both pass through only %s): the reference keeps, hashes and writes a value that decoding the stored memento does not produce - e.g. a "
+          "pd.Timestamp with nanoseconds or a subclass instance stays what it was - so the decoded arguments and the hash recomputed from them "
+          "differ from the stored ones" % ("; ".join(sorted({w for (_s, w) in bad_kept})), ", ".join(sorted(same)) or "nothing"),
+          nm.where(bad_kept[0][0]) if bad_kept else nm.where())
+    oko = not bad_other and (n_rt >= 1 or not bad_kept)
+    ck.ob(R, nm.key(None, "every-return-is-the-round-trip"), oko and n_rt >= 1,
+          "every other return of normalize is decode(encode(x)) (or a list / dict of normalised members where both coders map members)" if oko and n_rt >= 1 else
+          ("normalize returns `%s`, which is not decode(encode(x)) nor shown equal to it: arguments are kept in a form that reading the stored "
+           "document does not give back, so decoded arguments / recomputed hash differ from the originals" % bad_other[0][1]) if bad_other else
+          "normalize no longer takes any value through decode(encode(x))",
+          nm.where(bad_other[0][0]) if bad_other else nm.where())
+
+
 def check(ck):
     from .memo import check_new_memo_tables
     ck.run(check_new_memo_tables, ck, "C11.M1", ('serialization', 'reference', 'metadata'))
     ck.run(check_plain_json, ck, "C11.R8")
     ck.run(check_dict_keys_survive, ck, "C11.R9")
+    ck.run(check_normalize_is_round_trip, ck, "C11.R10")
     R1, R2, R3, R4, R5 = ("C11.R%d" % i for i in range(1, 6))
     ck.rule(R1, "pairwise key agreement: for each encode/decode pair the keys of the emitted object equal the keys the decoder reads", 7)
     ck.rule(R2, "field coverage: for each rebuilt class, constructor parameters == keyword arguments the decoder passes, "
